@@ -250,7 +250,8 @@ SCN_T = [
     ("2a", 3, ("W", "P"), 2),
     ("2a", 3, ("W", "Q"), 2),
     ("2a", 9, ("W", "A"), 2),
-    ("2a", 9, ("A", "Q"), 1),
+    # ("2a", 9, ("A", "Q"), 1) is left out: autopack of 9 equal-sized packs breaks ties by the (random, Rust-generated)
+    # pack names, so the number of operations differs between runs and schedules are not replayable.
     ("2a", 9, ("R", "A"), 2),
     ("2a", 3, ("R", "Q"), 2),
     ("2a", 3, ("P", "Q"), 2),
